@@ -15,7 +15,7 @@ import tempfile
 from harness import core, runner, tlc
 
 EDGE = [0, 1, 2, 32767, 32768, 65534, 65535]
-NAME_CHARS = 'abcXYZ019 _-#\\{}[]()+*/:^%<>=!.,;\'`~@$&|?éüß'
+NAME_CHARS = 'abcXYZ019 _-#\\{}[]()+*/:^%<>=!.,;\'`~@$&|?éüß' + '\t\x0b\x0c\x1c\x1e\x85\u2028\u2029\xa0'      # and separators that are not line breaks
 
 
 def rnd_component(rng):
